@@ -1,12 +1,12 @@
 CONSTANTS
   Streams = {1, 2}
   Stalled = {1}
-  Total = 3
+  Total = 4
   W = 1
   Bufs = 1
   Cap = 1
   Backlog = 1
-  Opens = 2
+  Opens = 3
   ReaderBlocks = FALSE
 SPECIFICATION Spec
 INVARIANT WindowOK
